@@ -74,7 +74,10 @@ func (env *Env) AddFunc(pkgPath, funcName string, f *Func) {
 
 // GetFunc finds previously bound function searching for the `$pkgPath.$funcName` symbol.
 func (env *Env) GetFunc(pkgPath, funcName string) *Func {
-	id := env.nameToFuncID[funcKey{qualifier: pkgPath, name: funcName}]
+	id, ok := env.nameToFuncID[funcKey{qualifier: pkgPath, name: funcName}]
+	if !ok {
+		return nil
+	}
 	return env.userFuncs[id]
 }
 
